@@ -217,7 +217,7 @@ let s3_pages (c : case) : coq_N list list =
 let shift_of (pgsz : coq_N) : coq_N =
   let rec go k = if (1 lsl k) >= int_of_n pgsz then k else go (k + 1) in n_of_int (go 0)
 
-let model_case (line : string) : string =
+let model_case_gen (dump_index : bool) (line : string) : string =
   let c = parse_case line in
   let files = Array.of_list (Stdlib.List.map read_file c.paths) in
   let rd = rd_of_files files in
@@ -241,29 +241,44 @@ let model_case (line : string) : string =
       let tab = Hashtbl.create 64 in
       Stdlib.List.iter (fun r -> Hashtbl.replace tab (string_of_list r.lpayload) r.lcontent) recs;
       let gunzip payload = Hashtbl.find_opt tab (string_of_list payload) in
-      (match LkcdModel.lk_open rd (nat_of_int (Array.length files)) with
+      (* the block-level model of the PFN index (Fmt/LkcdIndexModel.v) *)
+      let index_dump (st : LkcdIndexModel.kb_state) =
+        if not dump_index then "" else begin
+          let buf = Buffer.create 256 in
+          Buffer.add_string buf (Printf.sprintf "|I:%s:%s:%s:" (hex_of_n st.LkcdIndexModel.kb_last)
+                                   (hex_of_n st.kb_end) (hex_of_n st.kb_max_pfn));
+          let slots = Stdlib.List.sort (fun (a, _) (b, _) -> compare (int_of_n a) (int_of_n b)) st.kb_tbl in
+          Stdlib.List.iter (fun (slot, chain) ->
+            Buffer.add_string buf (Printf.sprintf "s%s[" (hex_of_n slot));
+            Stdlib.List.iter (fun b ->
+              Buffer.add_string buf (Printf.sprintf "%s@%s" (hex_of_n b.LkcdIndexModel.b_idx3) (hex_of_n b.b_filepos));
+              Stdlib.List.iter (fun o -> Buffer.add_string buf ("," ^ hex_of_n o)) b.b_offs;
+              Buffer.add_char buf ';') chain;
+            Buffer.add_char buf ']') slots;
+          Buffer.contents buf
+        end in
+      (match LkcdIndexModel.kb_open rd (nat_of_int (Array.length files)) with
        | Codec.Err st -> "OPEN" ^ status_str st
        | Codec.Ok st0 ->
            let st = ref st0 in
-           let z = ref false in
-           ignore z;
            String.concat " " (Stdlib.List.map (fun t ->
              if t = "G" then begin
-               let (r, st') = LkcdModel.lk_scan_max_pfn rd lk_fuel !st in
+               let (r, st') = LkcdIndexModel.kb_scan_max_pfn rd lk_fuel !st in
                st := st';
-               match r with
-               | Codec.Ok m -> Printf.sprintf "G:lkcd:%d:%s:%s:%s" (if st0.LkcdModel.lk_be then 0 else 1)
-                                 (lk c "ptr") (hex_of_n st0.lk_page_size) (hex_of_n m)
-               | Codec.Err e -> Printf.sprintf "G:lkcd:%d:%s:%s:!%s" (if st0.LkcdModel.lk_be then 0 else 1)
-                                 (lk c "ptr") (hex_of_n st0.lk_page_size) (status_str e)
+               (match r with
+               | Codec.Ok m -> Printf.sprintf "G:lkcd:%d:%s:%s:%s" (if st0.LkcdIndexModel.kb_be then 0 else 1)
+                                 (lk c "ptr") (hex_of_n st0.kb_page_size) (hex_of_n m)
+               | Codec.Err e -> Printf.sprintf "G:lkcd:%d:%s:%s:!%s" (if st0.LkcdIndexModel.kb_be then 0 else 1)
+                                 (lk c "ptr") (hex_of_n st0.kb_page_size) (status_str e))
+               ^ index_dump !st
              end
              else if t = "Z0" || t = "Z1" then "Z"
              else if t.[0] = 'R' then begin
                match split_on ':' (String.sub t 1 (String.length t - 1)) with
                | [a; addr; len] when a = "M" ->
-                   let ((s, data), st') = LkcdModel.lk_read rd gunzip lk_fuel !st (n_of_hex addr) (n_of_hex len) in
+                   let ((s, data), st') = LkcdIndexModel.kb_read rd gunzip lk_fuel !st (n_of_hex addr) (n_of_hex len) in
                    st := st';
-                   Printf.sprintf "R%s:%x:%x" (status_str s) (Stdlib.List.length data) (fnv1a data)
+                   Printf.sprintf "R%s:%x:%x" (status_str s) (Stdlib.List.length data) (fnv1a data) ^ index_dump !st
                | _ -> "?"
              end else "?") c.reqs))
   | "s390" ->
@@ -402,4 +417,5 @@ let spec_case (line : string) : string =
       ignore pgsz; run_reqs r c.reqs
   | f -> failwith ("unknown format " ^ f)
 
-let engines = [ "fmt", model_case; "fmt-enc", enc_case; "fmt-spec", spec_case ]
+let model_case = model_case_gen false
+let engines = [ "fmt", model_case; "fmt-lkidx", model_case_gen true; "fmt-enc", enc_case; "fmt-spec", spec_case ]
